@@ -1,6 +1,6 @@
 /-
   C15 — Concurrent writes are serializable and durable (persist layer).
-  Model: ILV.Model.PStep — one atomic step per lock-protected region of `FilePersist::append` / `flush`
+  Model: ILV.Model.PStep — one atomic step per lock-protected region of `FilePersist::append` / `flush` / `compact`
   (src/storage/persist/mod.rs:400-462, 581-620), any number of threads, any programs, any schedule;
   a crash may happen at any step boundary (`trace` lists every visited state).
   Helper lemmas (the inductive invariant) are in ILV.Lemmas.PStep.
@@ -51,15 +51,22 @@ theorem C15_partial (cfg : Cfg) (progs : List (List Op)) (pre : List Shard) (sch
 example : hazardous { bufSize := 1, fine := true } (init witnessProgs []) [0, 0, 1, 1, 0, 0, 0, 0, 0] = false := by decide
 example : acked (lastState { bufSize := 1, fine := true } (init witnessProgs []) [0, 0, 1, 1, 0, 0, 0, 0, 0]) 0 = [1, 2] := by decide
 
-/-- Served state (no crash): what `read` returns for a shard is the concatenation of the appended
-    batches in the order of their buffer sections — every append takes effect atomically, exactly
-    once, and flushes never change what is served. Holds for every schedule (including hazardous ones),
-    so the *served* state is always the result of running the appends sequentially in that order. -/
+/-- Served state (no crash): what `read` returns for a shard holds exactly the initial updates and the appended
+    batches in the order of their buffer sections, each exactly once (a permutation: a compaction re-sorts the
+    flushed part by (tuple, time)) — every append takes effect atomically, exactly once, and flushes and
+    compactions never change the multiset that is served. Holds for every schedule (including hazardous ones). -/
 theorem C15_served_serializable (cfg : Cfg) (st : State) (sched : List Tid) (s : Shard) :
-    served (lastState cfg st sched) s = served st s ++ linearized cfg st sched s :=
+    (served (lastState cfg st sched) s).Perm (served st s ++ linearized cfg st sched s) :=
   served_linearized cfg sched st s
 
 example : served (lastState witnessCfg (init witnessProgs []) witnessSched) 0 = [1, 2] := by decide
 example : linearized witnessCfg (init witnessProgs []) witnessSched 0 = [1, 2] := by decide
+
+/-- compaction (`compact(s,0)` = `flush s ; compactOnly s`) between an append and a delete of the same tuple:
+    one consolidated batch, sorted by (tuple, time); the invariant of `C15_partial` covers these steps too -/
+def cmpProg : List Op := [.append 0 [5, 3]] ++ expandCompact 0 ++ [.append 0 [1005]] ++ expandCompact 0
+example : ((lastState { bufSize := 100, fine := false } (init [cmpProg] [0]) (List.replicate 12 0)).shards 0).batches = [[3, 5, 1005]] := by decide
+example : hazardous { bufSize := 100, fine := true } (init [cmpProg] [0]) (List.replicate 14 0) = false := by decide
+example : recovered (lastState { bufSize := 100, fine := true } (init [cmpProg] [0]) (List.replicate 14 0)) 0 = [3, 5, 1005] := by decide
 
 end ILV.Props.C15
